@@ -88,8 +88,8 @@ def runRegistry (ops : List String) : Option String := do
 
 def handle : Handler
   | ["modid", s] => do let s ← decStr s; pure (encStr (moduleIdOf s))
-  | ["select", t, f, u, md, mf, mem] => do
-    let a : Args := ⟨← decOpt t, ← decOpt f, ← decOpt u, ← decOpt md, ← decOpt mf, ← decStr mem⟩
+  | ["select", t, f, u, md, mf, mem, cwd] => do
+    let a : Args := ⟨← decOpt t, ← decOpt f, ← decOpt u, ← decOpt md, ← decOpt mf, ← decStr mem, ← decStr cwd⟩
     pure (s!"{encStr (moduleId a)} {encStr (templateUri a)} {encCompile (selectPath a)}")
   | ["kwargs", args, va, vk, ko, data] => do
     let s : Sig := ⟨← decList args, ← decOpt va, ← decOpt vk, ← decList ko⟩
